@@ -392,12 +392,18 @@ pub fn scenario(case: &Case, slot: &Arc<StdMutex<Option<Verdict>>>) {
     }
     hist("harness", "last_client_action", Value::Null);
     let t0 = clock::now_us();
+    let d0 = mos_simrt::sched::decisions_so_far();
     let bound_us: u64 = if variant == 3 { 45_000_000 } else { 5_000_000 };
+    // Simulated time alone is not evidence that the process had the chance to finish: the clock may run ahead
+    // of threads that still have hundreds of small steps to take (single-byte socket writes under an eager
+    // clock). So the process also gets PATIENCE scheduling decisions after the client's last action; a process
+    // that is really stuck does not exit however many it gets.
+    const PATIENCE: u64 = 60_000;
     loop {
         if main_done.load(::std::sync::atomic::Ordering::SeqCst) {
             break;
         }
-        if clock::now_us() - t0 > bound_us {
+        if clock::now_us() - t0 > bound_us && mos_simrt::sched::decisions_so_far() - d0 > PATIENCE {
             v.hang = true;
             break;
         }
